@@ -6,6 +6,17 @@ class Facts:
         self.path = path
         with open(path) as f:
             self.raw = json.load(f)
+        self.canon_paths = {}
+        cp = self.raw.get('canon_paths') or []
+        if cp:
+            # items are named by the shortest path through which they can be named from the crate root, so that moving an
+            # item into a sub-module (and re-exporting / importing it under its old name) changes nothing for the rules
+            text = json.dumps(self.raw)
+            for row in sorted(cp, key=lambda x: -len(x['def'])):
+                self.canon_paths[row['def']] = row['canon']
+                text = re.sub(r'(?<![\w:])' + re.escape(row['def']) + r'(?![\w])', row['canon'], text)
+            self.raw = json.loads(text)
+            self.raw['canon_paths'] = cp
         r = self.raw
         self.role_renames = canonicalise_roles(r)
         self.crate = r['crate']
